@@ -51,6 +51,11 @@ def r1_only_invalid_params(ctx):
                         n += 1
                         k_ += 1
                         lv = tr.origins(x, st["rv"]["ops"][0])
+                        # `opt?` yields None: an Option-level residual is not a value that can sit inside an Err
+                        lv0 = lv
+                        lv = [l for l in lv if not (l.kind == "call" and re.search(r"option::Option<.*> as std::ops::FromResidual.*>::from_residual$", l.detail["callee"] or ""))]
+                        if lv0 and not lv:
+                            continue   # nothing but Option residuals is traceable: no error value originates here
                         ok = bool(lv) and all(l.kind == "call" and re.search(r"params::invalid_params$", l.detail["callee"] or "") for l in lv)
                         R.check(ok, "C16.R1", "%s:err#%d" % (name, k_), "%s builds its error with invalid_params" % name, "%s builds an error that is not invalid_params(..): %s" % (name, [flow.leaf_str(l) for l in lv]), "%s:%d" % (x.file, st["sp"][0]))
             for c in x.calls_to(r"Result::<.*>::map_err$|Option::<.*>::ok_or_else$"):
